@@ -131,10 +131,39 @@ pub fn pool(seed: u64) -> Pool {
             texts.insert("m6".to_string(), m6);
         }
     }
+    // m7: m5 with every object time halved (same object count, other content): the third occupant of the "slot"
+    if let Some(m5) = texts.get("m5").cloned() {
+        let mut in_objs = false;
+        let m7: String = m5.lines().map(|l| {
+            if l.trim() == "[HitObjects]" {
+                in_objs = true;
+                return l.to_string();
+            }
+            if !in_objs || l.trim().is_empty() {
+                return l.to_string();
+            }
+            let mut f: Vec<String> = l.split(',').map(str::to_string).collect();
+            if f.len() >= 5 {
+                if let Ok(t) = f[2].trim().parse::<f64>() {
+                    f[2] = format!("{}", (t / 2.0).floor());
+                }
+                let ty: u32 = f[3].trim().parse().unwrap_or(0);
+                if ty & 8 != 0 && f.len() >= 6 {
+                    if let Ok(e) = f[5].trim().parse::<f64>() {
+                        f[5] = format!("{}", (e / 2.0).floor());
+                    }
+                }
+            }
+            f.join(",")
+        }).collect::<Vec<_>>().join("\n");
+        texts.insert("m7".to_string(), m7);
+    }
     if !texts.contains_key("m5") {
         let o = random_objs(&mut rng, "osu", 20);
         texts.insert("m5".to_string(), concretize("osu", &o, &profile(seed as u32 + 5)));
         texts.insert("m6".to_string(), concretize("osu", &o, &profile(seed as u32 + 6)));
+        let o7 = random_objs(&mut rng, "osu", 20);
+        texts.insert("m7".to_string(), concretize("osu", &o7, &profile(seed as u32 + 5)));
     }
     let all = cfgs("quick");
     let mut c = HashMap::new();
@@ -185,17 +214,19 @@ pub struct Runner<'a> {
     pub reused: Option<rosu_pp::Difficulty>,
     /// ... and the performance builder (over an owned copy of the map) that "rperf" calls keep using
     pub reused_perf: Option<Performance<'static>>,
+    /// ONE heap location that "slot" calls overwrite in place with another map before calculating on it
+    pub slot: Box<Beatmap>,
 }
 
 impl<'a> Runner<'a> {
     pub fn new(pool: &'a Pool) -> Self {
         let maps = pool.texts.iter().map(|(k, t)| (k.clone(), Beatmap::from_bytes(t.as_bytes()).expect("pool map decodes"))).collect();
-        Self { pool, maps, grads: HashMap::new(), reused: None, reused_perf: None }
+        Self { pool, maps, grads: HashMap::new(), reused: None, reused_perf: None, slot: Box::new(Beatmap::default()) }
     }
 
     /// Execute one call; returns (key, digest, panic).
     pub fn call(&mut self, c: &Call) -> (String, String, bool) {
-        let cfg = &self.pool.cfgs[&c.cfg.replace("taiko", "-").replace("mania", "-")];
+        let cfg = &self.pool.cfgs[&c.cfg.replace("taiko", "-").replace("mania", "-").replace("catch", "-").replace("osu", "-")];
         let d = cfg.difficulty();
         let text = &self.pool.texts[&c.m];
         let mut key = format!("{}/{}/{}", c.op, c.m, c.cfg);
@@ -224,6 +255,17 @@ impl<'a> Runner<'a> {
                 let out = format!("{:?}", p.clone().calculate());
                 self.reused_perf = Some(p);
                 out
+            }
+            // the slot is overwritten IN PLACE (same address; m5 / m6 / m7 have the same number of objects) and used at once
+            "slot" => {
+                *self.slot = self.maps[&c.m].clone();
+                let plain = rosu_pp::Difficulty::new();
+                match c.cfg.as_str() {
+                    "taiko" => format!("{:?} {:?}", plain.calculate_for_mode::<rosu_pp::taiko::Taiko>(&self.slot), self.slot.convert_ref(GameMode::Taiko, &0u32.into()).map(|m| m.hit_objects.len())),
+                    "mania" => format!("{:?}", plain.calculate_for_mode::<rosu_pp::mania::Mania>(&self.slot)),
+                    "catch" => format!("{:?}", plain.calculate_for_mode::<rosu_pp::catch::Catch>(&self.slot)),
+                    _ => format!("{:?} {:?}", plain.calculate(&self.slot), self.slot.bpm()),
+                }
             }
             "strains" => format!("{:?}", d.strains(&self.maps[&c.m])),
             "perf" => format!("{:?}", Performance::new(&self.maps[&c.m]).difficulty(d.clone()).accuracy(94.2).misses(1).calculate()),
